@@ -279,6 +279,23 @@ def master_specs(fam):
 
 
 @st.composite
+def sparse_kern_font(draw):
+    """8-14 kerning classes per side with 1-2 class pairs per row: a PairPos class matrix that is mostly zero, so that GPOS compaction really changes the table"""
+    n = draw(st.integers(8, 14))
+    glyphs = [{"name": ".notdef", "width": 500, "contours": []}]
+    groups, kerning = {}, []
+    for side, base in (("1", 0x41), ("2", 0x61)):
+        for i in range(n):
+            nm = "%s%d" % ("L" if side == "1" else "R", i)
+            glyphs.append({"name": nm, "width": 500, "unicodes": [base + i], "contours": [[[0, 0, "line"], [100 + i, 0, "line"], [100, 100, "line"]]]})
+            groups["public.kern%s.g%d" % (side, i)] = [nm]
+    for i in range(n):
+        for j in draw(st.lists(st.integers(0, n - 1), min_size=1, max_size=2, unique=True)):
+            kerning.append(["public.kern1.g%d" % i, "public.kern2.g%d" % j, draw(st.integers(-90, -10))])
+    return {"info": {"unitsPerEm": 1000, "familyName": "Compact", "styleName": "Regular"}, "glyphs": glyphs, "groups": groups, "kerning": kerning, "lib": {}, "features": ""}
+
+
+@st.composite
 def family(draw, base_strategy=None, max_masters=3, allow_sparse=True, allow_two_axes=True, allow_rules=False):
     base = draw(base_strategy if base_strategy is not None else rich_font(with_layers=False))
     for g in base["glyphs"]:
